@@ -54,7 +54,7 @@ from harness.core import Ctx, Driver, LEAN, REPO
 
 PROPS = 'XsVerif.Props.C12'
 AUDIT = 'XsVerif.Audit.C12'
-LEAN_TARGETS = ['XsVerif.Props.C12', 'drv_c12']
+LEAN_TARGETS = ['XsVerif.Props.C12', 'XsVerif.Props.C12Reparse', 'drv_c12']
 LEANCHECK = ['XsVerif.Model.Access', 'XsVerif.Model.AccessTrace', 'XsVerif.Lemmas.Access', 'XsVerif.Lemmas.AccessCoding',
              'XsVerif.Lemmas.AccessTrace', 'XsVerif.Lemmas.AccessRemote', 'XsVerif.Props.C12']
 RULE = ('one case = (allow mode, main-source kind, reference mechanism, location spelling) processed by the real '
@@ -1459,11 +1459,13 @@ def explore(ctx: Ctx, drv: Optional[Driver], full: bool) -> None:
         render_cases(ctx, drv, tree)
         coding_cases(ctx, drv)
         construct_cases(ctx, tree, batch if drv is not None else None)
+        reparse_cases(ctx, tree, batch if drv is not None else None)
         if drv is not None:
             compare_batch(ctx, batch, drv)
             ctx.extra['driver_requests'] = len(batch.reqs)
         # report an actually forbidden fetch before the weaker 'fetch without a passed check' symptom
-        ctx.failures.sort(key=lambda f: ('without a passed access_control' in f['what'], 'non-library' in f['what']))
+        ctx.failures.sort(key=lambda f: ('without a passed access_control' in f['what'], 'non-library' in f['what'],
+                                         'settings' in f['what']))
     finally:
         os.chdir(old_cwd)
         Obs.active = False
@@ -1738,6 +1740,286 @@ def degenerate_base_cases(ctx: Ctx, tree: Tree, batch: Optional[Batch]) -> None:
                                     collect_model_requests(batch, case, obs, cwd)
     finally:
         os.chdir(old_cwd)
+
+
+# ----------------------------------------------------------------------------------------------
+# class of the resource object x fetch through parse() after construction
+# ----------------------------------------------------------------------------------------------
+_RECLASSES: dict[str, Any] = {}
+WSDL_TEXT = '<wsdl:definitions xmlns:wsdl="http://schemas.xmlsoap.org/wsdl/" targetNamespace="urn:w" name="first"/>'
+SETTING_NAMES = ('allow', 'base_url', 'defuse', 'timeout', 'uri_mapper', 'opener')
+
+
+def reparse_classes() -> dict[str, Any]:
+    """label -> (class, depth below XMLResource): the library's resource classes and user subclasses of them, one and
+    two levels deeper, with a mixin before / after the library class in the bases (the settings of a resource must
+    not depend on where in the class hierarchy the object sits)"""
+    if not _RECLASSES:
+        from xmlschema import XMLResource, XmlDocument
+        from xmlschema.extras.wsdl import Wsdl11Document
+
+        class Mixin:
+            marker = 'c12'
+
+        class UserResource(XMLResource):
+            pass
+
+        class UserResource2(UserResource):
+            pass
+
+        class UserDocument(XmlDocument):
+            pass
+
+        class UserDocument2(UserDocument):
+            extra = 1
+
+        class MixinFirstDocument(Mixin, XmlDocument):
+            pass
+
+        class MixinLastDocument(XmlDocument, Mixin):
+            pass
+
+        class MixinResource(Mixin, XMLResource):
+            pass
+
+        class UserWsdl(Wsdl11Document):
+            pass
+
+        _RECLASSES.update({
+            'resource': XMLResource, 'resource-sub': UserResource, 'resource-sub2': UserResource2,
+            'resource-mixin': MixinResource, 'xmldocument': XmlDocument, 'doc-sub': UserDocument,
+            'doc-sub2': UserDocument2, 'doc-mixin-first': MixinFirstDocument, 'doc-mixin-last': MixinLastDocument,
+            'wsdl': Wsdl11Document, 'wsdl-sub': UserWsdl})
+    return _RECLASSES
+
+
+def wsdl_schema() -> Any:
+    if len(_PLAIN_SCHEMA) < 2:
+        from xmlschema import XMLSchema10
+        from xmlschema.extras.wsdl import SCHEMAS_DIR
+        plain_schema()
+        _PLAIN_SCHEMA.append(XMLSchema10(str(SCHEMAS_DIR.joinpath('WSDL', 'wsdl.xsd'))))
+    return _PLAIN_SCHEMA[1]
+
+
+def settings_of(doc: Any) -> dict:
+    out = {}
+    for k in SETTING_NAMES:
+        v = getattr(doc, k, None)
+        out[k] = v if v is None or isinstance(v, (str, int, float, bool)) else \
+            dict(v) if isinstance(v, dict) else ('obj', id(v))
+    return out
+
+
+def run_reparse(tree: Tree, allow: str, cname: str, first: str, steps: list, opts: dict, idx: int) -> dict:
+    """a resource object of class `cname` is built from a permitted first source with the settings under test, then
+    `steps` = [(location, lazy)] are loaded into the same object with parse().  Observed per step: outcome, the first
+    XMLResource construction it made, the settings before / after, what get_arguments() would rebuild with, and
+    whether the content of the object changed."""
+    from xmlschema.exceptions import XMLSchemaException, XMLResourceBlocked
+    cls = reparse_classes()[cname]
+    is_doc = cname.startswith('doc') or cname == 'xmldocument'
+    is_wsdl = cname.startswith('wsdl')
+    text = WSDL_TEXT if is_wsdl else '<m>first</m>'
+    Obs.table = dict(tree.table)
+    kwargs: dict[str, Any] = {'allow': allow}
+    kwargs['base_url'] = tree.sand     # also for Wsdl11Document (forwarded to the resource since fix C12-F7, 1a788be)
+    if first == 'text':
+        src: Any = text
+    elif first == 'fileobj':
+        src = io.BytesIO(text.encode())
+    elif first == 'path':
+        src = os.path.join(tree.sand, 'first_doc.xml')
+        with open(src, 'w') as f:
+            f.write(text)
+    else:
+        Obs.table['/sand/first_doc.xml'] = text.encode()
+        src = f'{HOST}/sand/first_doc.xml'
+    if opts.get('mapper'):
+        kwargs['uri_mapper'] = {'urn:c12:mapped': opts['mapper']}
+    if opts.get('defuse'):
+        kwargs['defuse'] = opts['defuse']
+    if is_doc:
+        kwargs.update(schema=plain_schema(), validation='skip')
+    if is_wsdl:
+        kwargs.update(schema=wsdl_schema(), validation='skip')
+    Obs.events, Obs.served, Obs.access, Obs.inits = [], [], [], []
+    obs: dict[str, Any] = {'outcome': 'ok', 'elements': [], 'sandbox_dir': tree.sand if allow == 'sandbox' else None,
+                           'main_path': src if first == 'path' else '', 'steps': [], 'ctor': 'ok'}
+    with warnings.catch_warnings():
+        warnings.simplefilter('ignore')
+        try:
+            doc = cls(src, **kwargs)            # not observed: the first source is a permitted one or the case is void
+        except (XMLSchemaException, OSError, ValueError, AssertionError) as e:
+            obs['ctor'] = type(e).__name__
+            obs.update(events=[], served=[], access=[], inits=[])
+            return obs
+        requested = settings_of(doc)
+        obs['requested'] = requested
+        Obs.served = []                 # what the (permitted) first source needed is not part of the case
+        Obs.active = True
+        try:
+            for loc, lazy in steps:
+                root0 = doc.root
+                n0 = len(Obs.inits)
+                st: dict[str, Any] = {'loc': loc, 'lazy': lazy, 'outcome': 'ok'}
+                try:
+                    doc.parse(loc, lazy) if lazy else doc.parse(loc)
+                except XMLResourceBlocked as e:
+                    st['outcome'] = blocked_kind(str(e))
+                except (XMLSchemaException, OSError) as e:
+                    st['outcome'] = 'error:' + type(e).__name__
+                    st['message'] = str(e)[:120]
+                except Exception as e:      # noqa
+                    st['outcome'] = 'FOREIGN:' + type(e).__name__
+                    st['message'] = str(e)[:120]
+                    obs['outcome'] = st['outcome']
+                Obs.active = False
+                st['first_init'] = dict(Obs.inits[n0]) if len(Obs.inits) > n0 else None
+                st['settings'] = settings_of(doc)
+                try:
+                    ga = doc.get_arguments()
+                    st['rebuild'] = {k: (ga[k] if not isinstance(ga[k], dict) else dict(ga[k])) if k in ga else '<absent>'
+                                     for k in ('allow', 'base_url', 'defuse', 'uri_mapper')}
+                except Exception as e:      # noqa
+                    st['rebuild'] = {'error': type(e).__name__}
+                st['content_changed'] = doc.root is not root0
+                st['url'] = doc.url
+                obs['steps'].append(st)
+                Obs.active = True
+        finally:
+            Obs.active = False
+    obs.update(events=list(Obs.events), served=list(Obs.served), access=list(Obs.access), inits=list(Obs.inits))
+    return obs
+
+
+def evaluate_reparse(ctx: Ctx, tree: Tree, case: dict, obs: dict, batch: Optional[Batch]) -> None:
+    """settings survive every parse(); the model's decision for (configured allow, configured base, location) is the
+    outcome of the step; a refused step leaves the content alone"""
+    req = obs['requested']
+    R = tree.root
+
+    def clean(x: Any) -> Any:
+        return json.loads(json.dumps(x, default=str).replace(R, '$R'))
+
+    cur = dict(req)
+    for n, st in enumerate(obs['steps']):
+        # the only setting that may move is base_url, and only to the directory of the URL a SUCCESSFUL step loaded
+        # (BaseUrlOption.__get__); under sandbox that directory lies inside the configured base (the sandbox only narrows)
+        want_s = dict(cur)
+        if st['outcome'] == 'ok' and isinstance(st['url'], str):
+            want_s['base_url'] = os.path.dirname(st['url'])
+        if st['settings'] != want_s:
+            ctx.failure('the settings of the resource changed in parse()', case,
+                        clean({'step': n, 'expected': want_s, 'after': st['settings'], 'outcome': st['outcome']}))
+            return
+        if req['allow'] == 'sandbox' and req['base_url'] is not None and want_s['base_url'] is not None and \
+                not inside(url_path(req['base_url']), url_path(want_s['base_url'])):
+            ctx.failure('parse() moved the sandbox base outside the configured base', case,
+                        clean({'step': n, 'configured': req['base_url'], 'after': want_s['base_url']}))
+            return
+        rb = st['rebuild']
+        want = {k: want_s[k] for k in ('allow', 'base_url', 'defuse', 'uri_mapper')}
+        if rb != want:
+            ctx.failure('get_arguments() does not carry the access settings of the resource', case,
+                        clean({'step': n, 'settings': want, 'rebuild_arguments': rb}))
+            return
+        if st['outcome'].startswith('blocked') and st['content_changed']:
+            ctx.failure('a refused parse() replaced the content of the resource', case, clean({'step': n, 'step_obs': st}))
+            return
+        r = st['first_init']
+        if r is not None:
+            if r['allow'] != cur['allow'] or r['base'] != cur['base_url']:
+                ctx.failure('parse() rebuilt the resource with other access settings than the configured ones', case,
+                            clean({'step': n, 'configured': [cur['allow'], cur['base_url']], 'rebuilt_with': [r['allow'], r['base']],
+                                   'outcome': st['outcome'], 'url': st['url']}))
+                return
+            if batch is not None:
+                loc = r['source'].strip()
+                if r['mapper'] and loc in r['mapper']:
+                    loc = r['mapper'][loc]
+                mbase = cur['base_url']
+                if in_model_domain(loc, mbase):
+                    # the decision of the MODEL under the settings in effect against what the step did
+                    d = st['outcome'] if st['outcome'].startswith('blocked') else r['decision']
+                    batch.add({'op': 'resolve', 'allow': cur['allow'], 'cwd': enc(tree.sand), 'base': enc(mbase),
+                               'loc': enc(loc)},
+                              'resolve', clean({**case, 'step': n, 'base': mbase}),
+                              {'decision': d, 'url': r['url'], 'eff_base': r.get('eff_base')})
+        cur = want_s
+
+
+REPARSE_FIRST = ['text', 'path', 'fileobj', 'remote-url']
+
+
+def reparse_targets(R: str) -> list[tuple[str, str]]:
+    s = os.path.join(R, 'sand')
+    return [('in', 'inc.xsd'), ('in', 'sub/inc.xsd'), ('in', f'{s}/inc.xsd'), ('in', f'file://{s}/sub/../inc.xsd'),
+            ('out', '../other/inc.xsd'), ('out', f'{R}/sand_evil/inc.xsd'), ('out', f'file://{R}/other/inc.xsd'),
+            ('out', f'file://{s}/%2E%2E/sand_evil/inc.xsd'), ('out', 'sub/../../other/inc.xsd'), ('out', f'{s}/../inc.xsd'),
+            ('remote', f'{HOST}/sand/inc.xsd'), ('remote', f'HTTP://stub.test/other/inc.xsd')]
+
+
+def reparse_case_args(tree: Tree, cname: str, allow: str, ti: int, ci: int, ai: int, variant: int) -> tuple[str, list, dict]:
+    tg = reparse_targets(tree.root)
+    if cname.startswith('wsdl'):                # same places, WSDL documents (written by reparse_cases)
+        tg = [(c, u.replace('inc.xsd', 'inc.wsdl')) for c, u in tg]
+    tcls, loc = tg[ti]
+    k = ci + ai + ti + variant
+    first = REPARSE_FIRST[k % len(REPARSE_FIRST)]
+    if allow in ('remote', 'none') and first == 'path' or allow in ('local', 'sandbox', 'none') and first == 'remote-url':
+        first = 'text'                          # the first source must be a permitted one
+    lazy = [False, True, 2][k % 3] if not cname.startswith('wsdl') else False
+    opts: dict[str, Any] = {}
+    steps = [(loc, lazy)]
+    if k % 4 == 1:
+        opts['mapper'] = loc                    # the location reaches parse() through the URI mapper
+        steps = [('urn:c12:mapped', lazy)]
+    if k % 5 == 2:
+        opts['defuse'] = 'always'
+    if variant:                                 # a permitted (or refused) parse first, then the location: settings survive both
+        pre = tg[(ti + 5) % len(tg)][1]
+        steps = [(pre, False)] + steps
+    return first, steps, opts
+
+
+def reparse_cases(ctx: Ctx, tree: Tree, batch: Optional[Batch]) -> None:
+    """class of the resource object (XMLResource, XmlDocument, Wsdl11Document, user subclasses one and two levels
+    deeper, mixins) x allow mode x location (inside / outside the base / remote; relative, absolute, file URL,
+    encoded dot segments) fetched through parse() AFTER construction, once and after a previous parse(); rotating
+    first-source kind, lazy mode, uri-mapper route and defuse mode."""
+    idx = 0
+    n_t = len(reparse_targets(tree.root))
+    for d in ('sand', 'sand/sub', 'sand_evil', 'other'):
+        with open(os.path.join(tree.root, d, 'inc.wsdl'), 'w') as f:
+            f.write(WSDL_TEXT.replace('first', 'w_' + d.replace('/', '_')))
+        tree.table[f'/{d}/inc.wsdl'] = WSDL_TEXT.replace('first', 'rw_' + d.replace('/', '_')).encode()
+    for ci, cname in enumerate(reparse_classes()):
+        for ai, allow in enumerate(MODES):
+            for ti in range(n_t):
+                for variant in ((0, 1) if (not ctx.quick() or (ci + ai + ti) % 3 == 0) else (0,)):
+                    idx += 1
+                    first, steps, opts = reparse_case_args(tree, cname, allow, ti, ci, ai, variant)
+                    case = {'allow': allow, 'kind': first, 'mech': 'reparse:' + cname, 'loc': steps[-1][0].replace(tree.root, '$R'),
+                            'class': reparse_targets(tree.root)[ti][0], 'target': ti, 'variant': variant, 'ci': ci, 'ai': ai,
+                            'steps': [[s[0].replace(tree.root, '$R'), s[1]] for s in steps],
+                            'opts': {k: str(v).replace(tree.root, '$R') for k, v in opts.items()}, 'idx': idx}
+                    obs = run_reparse(tree, allow, cname, first, steps, opts, idx)
+                    if obs['ctor'] != 'ok':
+                        ctx.count('reparse-ctor:' + obs['ctor'])
+                        ctx.count(f'reparse-void:{cname}:{allow}')
+                        continue
+                    evaluate(ctx, tree, case, obs)
+                    evaluate_reparse(ctx, tree, case, obs, batch)
+                    ctx.case(case, any(a['allow'] != 'all' and a['url'] is not None for a in obs['access']), tag='mech:reparse')
+                    ctx.count(f'reparse:{cname}')
+                    for st in obs['steps']:
+                        ctx.count('reparse-step:' + st['outcome'].split(':')[0])
+                    for a in obs['access']:
+                        ctx.count('impl-access:' + a['decision'])
+                    if batch is not None:
+                        collect_model_requests(batch, case, obs, tree.sand)
+
 
 
 CTORS_BUILD = ['plain', 'parent', 'no-meta', 'global-maps', 'build-later']
@@ -2080,6 +2362,15 @@ def replay(ctx: Ctx, obj: dict) -> int:
             obs = run_construct(tree, case['allow'], case['ctor'], case['mech'].split(':', 1)[1], loc, case['xsd11'],
                                 case['kind'], case.get('idx', 0))
             print('  schema.allow =', obs.get('schema_allow'), ' maps.settings.allow =', obs.get('maps_allow'))
+        elif case['mech'].startswith('reparse:'):
+            cname = case['mech'].split(':', 1)[1]
+            first, steps, opts = reparse_case_args(tree, cname, case['allow'], case['target'], case['ci'], case['ai'], case['variant'])
+            print('class', reparse_classes()[cname].__mro__[:-1], ' first source:', first, ' parse steps:', case['steps'], case['opts'])
+            obs = run_reparse(tree, case['allow'], cname, first, steps, opts, case.get('idx', 0))
+            for st in obs.get('steps', ()):
+                print('  parse', st['loc'].replace(tree.root, '$R'), 'lazy=%s' % st['lazy'], '->', st['outcome'], ' settings after:',
+                      st['settings'], ' rebuild arguments:', st['rebuild'])
+            evaluate_reparse(ctx, tree, case, obs, None)
         elif case['mech'].startswith('remote-base:'):
             obs = run_remote_base(tree, case['allow'], case['kind'], case['mech'].split(':', 1)[1], loc, case['base'],
                                   case.get('idx', 0))
